@@ -285,7 +285,7 @@ func init() {
 		corpus = append(corpus, lru)
 		core.RunLeg(c, core.Leg[c12Case]{
 			Name: "Hs", Kind: "oracle",
-			Rule: "random call histories (20-60 calls; thorough: some of 100-300) over 18 shared Regexps (balancing groups, bool-only-eligible patterns, stack-limited and timed patterns, RTL, sparse groups, pooling/caching disabled or tightened); each call = entry point (MatchString, MatchRunes, FindStringMatch/FindRunesMatch(+StartingAt) with FindNextMatch chains, chains kept open across other calls, FindAllStringIndex/RunesIndex, Replace with 43 distinct replacements, ReplaceFunc, Split) x input (8 shapes, byte length around the pool classes 1K/4K/16K, some 64K, thorough 256K); oracle: canonical result (value, error class, all captures) equals the same call on a Regexp compiled for that call alone with pooling and caching switched off (nothing reused), and on one compiled with the same options; VerifRunnerSnapshot invariant after each call; matches handed out earlier are unchanged at the end. Non-trivial = at least 2 calls",
+			Rule:   "random call histories (20-60 calls; thorough: some of 100-300) over 18 shared Regexps (balancing groups, bool-only-eligible patterns, stack-limited and timed patterns, RTL, sparse groups, pooling/caching disabled or tightened); each call = entry point (MatchString, MatchRunes, FindStringMatch/FindRunesMatch(+StartingAt) with FindNextMatch chains, chains kept open across other calls, FindAllStringIndex/RunesIndex, Replace with 43 distinct replacements, ReplaceFunc, Split) x input (8 shapes, byte length around the pool classes 1K/4K/16K, some 64K, thorough 256K); oracle: canonical result (value, error class, all captures) equals the same call on a Regexp compiled for that call alone with pooling and caching switched off (nothing reused), and on one compiled with the same options; VerifRunnerSnapshot invariant after each call; matches handed out earlier are unchanged at the end. Non-trivial = at least 2 calls",
 			Corpus: corpus, N: c.N(300, 8000), Gen: c12Gen(c.Thorough()), Check: c12Check, Batch: 64,
 		})
 	})
